@@ -3,7 +3,8 @@ From DV Require Export Lock.
 Open Scope N_scope.
 
 Inductive c20case :=
-| CLock (max : nat) (tr : list msg).         (* the service, driven by messages of 1-3 connections *)
+| CLock (max : nat) (tr : list msg)          (* the service, driven by messages of 1-3 connections *)
+| CConn (max : nat) (es : list cev).         (* connections (real process_acquired_room / cleanup) on top of the service *)
 
 (* ---------------- observation format ----------------
    per message: [number of grants; c; k; r; c; k; r; ...], the grants of that message ordered by
@@ -119,27 +120,16 @@ Fixpoint spec_from (max : nat) (s : sp) (tr : list msg) (gss : list (list grant)
   | _, _ => (false, false)
   end.
 
-Definition trace_of (c : c20case) : nat * list msg :=
-  match c with CLock max tr => (max, tr) end.
-
-Definition run_grants (c : c20case) : list (list grant) :=
-  let '(max, tr) := trace_of c in run_from (init max) tr.
-
-(* what the model says the implementation observes *)
-Definition run_C20 (c : c20case) : list Z :=
-  encode (map sort_g (run_grants c)).
-
-Definition spec_pair (c : c20case) (obs : list Z) : bool * bool :=
-  let '(max, tr) := trace_of c in
+(* ---------------- service level: run / oracle / known ---------------- *)
+Definition run_lock (max : nat) (tr : list msg) : list Z :=
+  encode (map sort_g (run_from (init max) tr)).
+Definition spec_pair_lock (max : nat) (tr : list msg) (obs : list Z) : bool * bool :=
   match decode (length tr) obs with
   | Some gss => spec_from max sp0 tr gss
   | None => (false, false)
   end.
-Definition spec_C20 (c : c20case) (obs : list Z) : bool :=
-  let '(a, b) := spec_pair c obs in a && b.
 
-(* ---------------- known finding classes ----------------
-   class 1 (K1, releases carry no owner): somewhere in the history an Unlock sent by a connection
+(* class 1 (K1, releases carry no owner): somewhere in the history an Unlock sent by a connection
    that does not hold the room frees a room that is locked (held by another connection, or by the
    same connection through a newer grant).  Histories outside this class: theorem
    C20_outside_known.  The class only covers the exclusive/bounded part: if the "once" /
@@ -160,11 +150,134 @@ Fixpoint foreign_from (s : st) (h : list (N * N)) (tr : list msg) : bool :=
       let '(s', g) := step s m in
       bad || foreign_from s' (gh_grants (gh_msg h m) g) tl
   end.
-Definition foreign_unlock (c : c20case) : bool :=
-  let '(max, tr) := trace_of c in foreign_from (init max) [] tr.
+Definition foreign_lock (max : nat) (tr : list msg) : bool := foreign_from (init max) [] tr.
+Definition known_lock (max : nat) (tr : list msg) : list Z :=
+  if foreign_lock max tr && snd (spec_pair_lock max tr (run_lock max tr)) then [1%Z] else [].
 
+(* ---------------- connection level ----------------
+   observation per event: the grants of the event (as above), then the room tasks in flight after
+   the event: [number; c; r; c; r; ...] ordered by (c, r) *)
+Definition pair_leb (a b : N * N) : bool :=
+  N.ltb (fst a) (fst b) || (N.eqb (fst a) (fst b) && N.leb (snd a) (snd b)).
+Fixpoint insert_p (x : N * N) (l : list (N * N)) : list (N * N) :=
+  match l with [] => [x] | y :: t => if pair_leb x y then x :: l else y :: insert_p x t end.
+Fixpoint sort_p (l : list (N * N)) : list (N * N) :=
+  match l with [] => [] | x :: t => insert_p x (sort_p t) end.
+Definition running (x : cst) : list (N * N) :=
+  sort_p (flat_map (fun cn => map (pair (cn_c cn)) (cn_tasks cn)) (c_conns x)).
+Definition enc_pairs (l : list (N * N)) : list Z :=
+  Z.of_nat (length l) :: flat_map (fun p => [zn (fst p); zn (snd p)]) l.
+Definition run_conn (max : nat) (es : list cev) : list Z :=
+  flat_map (fun y : cst * list msg * list (list grant) =>
+              enc_step (sort_g (concat (snd y))) ++ enc_pairs (running (fst (fst y))))
+           (crun (cinit max) es).
+
+Fixpoint take_pairs (n : nat) (l : list Z) : option (list (N * N) * list Z) :=
+  match n with
+  | O => Some ([], l)
+  | S k => match l with
+           | c :: r :: tl => match take_pairs k tl with
+                             | Some (ps, rest) => Some ((Z.to_N c, Z.to_N r) :: ps, rest)
+                             | None => None end
+           | _ => None
+           end
+  end.
+Fixpoint decode_conn (nev : nat) (l : list Z) : option (list (list grant * list (N * N))) :=
+  match nev with
+  | O => match l with [] => Some [] | _ => None end
+  | S k => match l with
+           | [] => None
+           | cnt :: tl =>
+               match take_grants (Z.to_nat cnt) tl with
+               | Some (gs, cnt2 :: rest) =>
+                   match take_pairs (Z.to_nat cnt2) rest with
+                   | Some (ts, rest2) => match decode_conn k rest2 with Some al => Some ((gs, ts) :: al) | None => None end
+                   | None => None
+                   end
+               | _ => None
+               end
+           end
+  end.
+
+(* the oracle at connection level, on what was observed (grants, tasks in flight):
+     exclusive : no room has two tasks in flight (whichever connections they belong to)
+     bounded   : at most `max` tasks in flight
+     released  : when a live connection asks for exactly one room that nobody uses (no task in flight
+                 for it, not waiting in the inbox of a live connection) and fewer than `max` rooms are
+                 in use, it gets it at once — in particular what an ended connection held is free again *)
+Record csp := { cs_inbox : list (N * list N); cs_ended : list N; cs_tasks : list (N * N) }.
+Definition csp0 : csp := {| cs_inbox := []; cs_ended := []; cs_tasks := [] |}.
+Definition inbox_of (s : csp) (c : N) : list N :=
+  match find (fun x => N.eqb (fst x) c) (cs_inbox s) with Some x => snd x | None => [] end.
+Definition set_inbox (s : csp) (c : N) (l : list N) : csp :=
+  {| cs_inbox := (c, l) :: filter (fun x => negb (N.eqb (fst x) c)) (cs_inbox s); cs_ended := cs_ended s; cs_tasks := cs_tasks s |}.
+Definition in_use (s : csp) : list N :=
+  map snd (cs_tasks s) ++ flat_map (fun x => if memN (fst x) (cs_ended s) then [] else snd x) (cs_inbox s).
+Definition csp_event (max : nat) (s : csp) (e : cev) (gs : list grant) (tasks : list (N * N)) : bool * csp :=
+  let live := fun c => negb (memN c (cs_ended s)) in
+  let must := match e with
+              | CRequest c [r] => if live c && negb (memN r (in_use s)) && Nat.ltb (length (in_use s)) max
+                                  then existsb (fun g => pair_eqb (cr g) (c, r)) gs else true
+              | _ => true
+              end in
+  let s1 := match e with
+            | CTake c => if live c then set_inbox s c (tl (inbox_of s c)) else s
+            | CEnd c => {| cs_inbox := cs_inbox s; cs_ended := c :: cs_ended s; cs_tasks := cs_tasks s |}
+            | _ => s
+            end in
+  let s2 := fold_left (fun acc g => set_inbox acc (fst (cr g)) (inbox_of acc (fst (cr g)) ++ [snd (cr g)])) gs s1 in
+  (must && nodupN (map snd tasks) && Nat.leb (length tasks) max,
+   {| cs_inbox := cs_inbox s2; cs_ended := cs_ended s2; cs_tasks := tasks |}).
+Fixpoint spec_conn_from (max : nat) (s : csp) (es : list cev) (obs : list (list grant * list (N * N))) : bool :=
+  match es, obs with
+  | [], [] => true
+  | e :: tl, (gs, ts) :: otl => let '(ok, s') := csp_event max s e gs ts in ok && spec_conn_from max s' tl otl
+  | _, _ => false
+  end.
+Definition spec_conn (max : nat) (es : list cev) (obs : list Z) : bool :=
+  match decode_conn (length es) obs with
+  | Some l => spec_conn_from max csp0 es l
+  | None => false
+  end.
+
+(* known classes at connection level, by their cause:
+   class 1 (K1 reached without any misbehaving caller): a connection ends while one of its room
+           tasks is still running — cleanup unlocks the room, the task will unlock it again.
+   class 2 (K2, grants lost at connection end): a connection ends while a grant it has not taken
+           yet sits in its lock channel — nobody will ever release that room. *)
+Fixpoint known_conn_from (x : cst) (es : list cev) : list Z :=
+  match es with
+  | [] => []
+  | e :: tl =>
+      let here := match e with
+                  | CEnd c => let cn := find_conn (c_conns x) c in
+                              if cn_ended cn then [] else
+                              (match cn_tasks cn with [] => [] | _ => [1%Z] end) ++
+                              (match cn_inbox cn with [] => [] | _ => [2%Z] end)
+                  | _ => []
+                  end in
+      here ++ known_conn_from (fst (fst (cstep x e))) tl
+  end.
+Definition dedup12 (l : list Z) : list Z :=
+  (if existsb (Z.eqb 1) l then [1%Z] else []) ++ (if existsb (Z.eqb 2) l then [2%Z] else []).
+
+(* the service messages a connection-level history causes *)
+Definition conn_trace (max : nat) (es : list cev) : list msg :=
+  flat_map (fun y : cst * list msg * list (list grant) => snd (fst y)) (crun (cinit max) es).
+
+(* ---------------- entry points ---------------- *)
+Definition run_C20 (c : c20case) : list Z :=
+  match c with CLock max tr => run_lock max tr | CConn max es => run_conn max es end.
+Definition spec_C20 (c : c20case) (obs : list Z) : bool :=
+  match c with
+  | CLock max tr => let '(a, b) := spec_pair_lock max tr obs in a && b
+  | CConn max es => spec_conn max es obs
+  end.
 Definition known_C20 (c : c20case) : list Z :=
-  if foreign_unlock c && snd (spec_pair c (run_C20 c)) then [1%Z] else [].
+  match c with
+  | CLock max tr => known_lock max tr
+  | CConn max es => dedup12 (known_conn_from (cinit max) es)
+  end.
 
 Definition eval_C20 (c : c20case) (obs : list Z) : list Z :=
   [zb (zlist_eqb (run_C20 c) obs); zb (spec_C20 c obs)] ++ known_C20 c.
